@@ -119,6 +119,8 @@ def generate_dispatch(ov, arganal):
     if len(po) > 1:
         args.append("/")
 
+    npos = i
+
     if kr or ko:
         args.append("*")
 
@@ -151,8 +153,8 @@ def generate_dispatch(ov, arganal):
         req = len(spr + pr)
         for i, arg in enumerate(spo + po):
             call = call_template.format(
-                lookup=join(lookup[: req + i], trail=True),
-                posargs=join(posargs[: req + i + 1]),
+                lookup=join(lookup[: req + i] + lookup[npos:], trail=True),
+                posargs=join(posargs[: req + i + 1] + posargs[npos + 1 :]),
                 mvar=mv,
             )
             call = textwrap.indent(call, "        ")
